@@ -21,7 +21,8 @@ def parseEInfo (j : Json) : Except String (Nat × EInfo) := do
     | .error e => throw e
   let direct ← (← getArr j "direct").toList.mapM parseQN
   let subs ← (← getArr j "subs").toList.mapM parseQT
-  return (id, { name, ty, sgHead, direct, subs })
+  let headOk := match j.getObjValAs? Bool "headOk" with | .ok b => b | .error _ => true
+  return (id, { name, ty, sgHead, direct, subs, headOk })
 
 def parseTypes (j : Json) : Except String (Nat × List (QN × Nat)) := do
   let a ← j.getArr?
@@ -37,7 +38,7 @@ def errJson' : Option CMErr → List (String × Json)
   | some (.sameGroup pe e) => [("res", "group"), ("pair", Json.arr #[pe, e])]
   | some (.upa pe e) => [("res", "upa"), ("pair", Json.arr #[pe, e])]
 
-/-- request: {"v11","n","model","smodel","einfo","defined","sigma","types","fuel"}
+/-- request: {"v11","n","model","smodel","einfo","defined","sigma","types","otypes","fuel","fx"}
     answer:  {"m": port of check_model, "o": proved oracle} -/
 def handle (j : Json) : Except String Json := do
   let v11 ← getBool j "v11"
@@ -57,7 +58,12 @@ def handle (j : Json) : Except String Json := do
     | .ok v => (← v.getArr?).toList.mapM parseTypes
     | .error _ => pure types
   let fuel ← getNat j "fuel"
-  let M := mkCtx v11 n nodes infos defined
+  -- which repairs the tree under test contains (detected by the harness); absent = pinned algorithm
+  let flag (k : String) : Bool := match j.getObjVal? "fx" with
+    | .ok o => (match o.getObjValAs? Bool k with | .ok b => b | .error _ => false)
+    | .error _ => false
+  let fx : Fixes := { shared := flag "shared", repSeq := flag "repSeq", head10 := flag "head10", edc10 := flag "edc10" }
+  let M := mkCtx v11 n nodes infos defined fx
   let r := M.checkModel p
   let mJ := Json.mkObj (errJson' r.err ++ [
     ("precs", Json.arr (r.precs.map fun (w, e) => Json.arr #[w, e]).toArray),
